@@ -85,23 +85,42 @@ def build_battery(b):
                                charge_calculation=b.get("calc", "continuous"))
 
 
-def build_ev(s, shift=0):
+def int_caster(desc, shift=0):
+    """Period indices as numpy integer scalars (table / column elements) when the descriptor asks for it; an unsigned type only
+    if every index of the scenario fits it (a car connected before the start has a negative arrival)."""
+    t = desc.get("int_type")
+    if not t:
+        return lambda x: x
+    vals = [v + shift for s in desc["sessions"] for v in (s["arrival"], s["departure"], s.get("est_dep", s["departure"]))] + \
+           [v + shift for v in desc.get("recompute", [])]
+    info = np.iinfo(t)
+    if vals and (min(vals) < info.min or max(vals) + 2 > info.max):
+        t = "int64"
+    return getattr(np, t)
+
+
+def build_ev(s, shift=0, it=None):
     from acnportal.acnsim.models import EV
-    return EV(s["arrival"] + shift, s["departure"] + shift, s["requested"], s["station"], s["id"],
-              build_battery(s["battery"]), estimated_departure=s.get("est_dep", s["departure"]) + shift)
+    it = it or (lambda x: x)
+    return EV(it(s["arrival"] + shift), it(s["departure"] + shift), s["requested"], s["station"], s["id"],
+              build_battery(s["battery"]), estimated_departure=it(s.get("est_dep", s["departure"]) + shift))
 
 
-def build_events(desc, shift=0, session_order=None, queue=None, late=False, evs=None):
+def build_events(desc, shift=0, session_order=None, queue=None, late=False, evs=None, event_objs=None):
     from acnportal.acnsim.events import EventQueue, PluginEvent, RecomputeEvent
     sessions = desc["sessions"] if session_order is None else [desc["sessions"][i] for i in session_order]
     if evs is None:
-        evs = [build_ev(s, shift) for s in sessions]
+        evs = [build_ev(s, shift, int_caster(desc, shift)) for s in sessions]
     # (else: EV objects handed in by the caller, e.g. the cars of an earlier simulation after their public reset())
     arrive = PluginEvent
     if desc.get("arrival_event") == "user":
         from .userext import ValetArrival as arrive  # a user-defined event class derived from the documented EVEvent base
     hold = set(desc.get("hold_back", []))  # sessions whose plug-in event the caller adds later, from inside the run
-    events = [arrive(e.arrival, e) for e in evs if e.session_id not in hold] + [RecomputeEvent(t + shift) for t in desc.get("recompute", [])]
+    it = int_caster(desc, shift)
+    events = [arrive(e.arrival, e) for e in evs if e.session_id not in hold] + [RecomputeEvent(it(t + shift)) for t in desc.get("recompute", [])]
+    if event_objs is not None:  # event objects of an earlier simulation (and with them its EV objects), handed to another simulator
+        events = list(event_objs)
+        evs = [e.ev for e in events if hasattr(e, "ev")]
     if late:  # the caller fills the queue only after the simulator has been constructed on it
         return (queue if queue is not None else EventQueue()), evs, events
     if queue is not None:  # an existing (e.g. drained) queue object is refilled and used again
@@ -259,15 +278,15 @@ def build_scheduler(desc, sort_wrapper=None):
 
 
 def build_sim(desc, scheduler=None, network=None, shift=0, order=None, cons_order=None,
-              session_order=None, net_cls=None, net_kw=None, queue=None, late_fill=False, evs=None, **simkw):
+              session_order=None, net_cls=None, net_kw=None, queue=None, late_fill=False, evs=None, event_objs=None, **simkw):
     from acnportal.acnsim import Simulator
     net = network or build_network(desc["network"], cls=net_cls, order=order, cons_order=cons_order,
                                    **(net_kw or {}))
     pending_events = None
     if late_fill:
-        q, evs, pending_events = build_events(desc, shift=shift, session_order=session_order, queue=queue, late=True, evs=evs)
+        q, evs, pending_events = build_events(desc, shift=shift, session_order=session_order, queue=queue, late=True, evs=evs, event_objs=event_objs)
     else:
-        q, evs = build_events(desc, shift=shift, session_order=session_order, queue=queue, evs=evs)
+        q, evs = build_events(desc, shift=shift, session_order=session_order, queue=queue, evs=evs, event_objs=event_objs)
     sch = scheduler if scheduler is not None else build_scheduler(desc)
     if getattr(sch, "sd", None) is not None and shift:
         sch.sd = dict(sch.sd, t0=sch.sd.get("t0", 0) + shift)
